@@ -32,6 +32,7 @@ class Spec:
     seq: Tuple[Tuple[str, Tuple[str, ...]], ...] = ()   # "driver": commands run in order inside this one script, failures recorded not fatal
     fail_undeclared: bool = False       # the fail flag is read without declaring it as a dependency
     post: Tuple[str, ...] = ()          # dependencies requested AFTER the output was written (and redo-stamp has run)
+    wreck: str = ""                     # the script replaces this directory (its target's parent) by a regular file before it writes its output
     redir: bool = False                 # the script redirects the stderr of its redo-ifchange calls into a file of its own
     sync: Tuple[Tuple[str, str, str], ...] = ()   # E2 only: (position start|mid|end, action wait|set, flag) -- scripts that wait for each other
 
@@ -44,7 +45,7 @@ class Spec:
                     tuple(f(d) for d in self.ifcreate_raw),
                     f(self.fail) if self.fail else None, self.out, self.proj, self.split, self.tag, self.noise,
                     tuple((c, tuple(f(d) for d in ds)) for c, ds in self.seq), self.fail_undeclared,
-                    tuple(f(d) for d in self.post), self.redir, self.sync)
+                    tuple(f(d) for d in self.post), self.wreck, self.redir, self.sync)
 
 
 @dataclass
@@ -206,6 +207,8 @@ def script_text(spec: Spec, variant: int, dofile: str, gates: bool = False) -> s
         L.append(f'if [ "$(cat "{fl}")" = 1 ]; then echo "F $1" >> "$RV_TRACE"; {we}exit 7; fi')
         kp()
     sync("mid")
+    if spec.wreck:
+        L.append('rm -rf "%s"; echo hi > "%s"' % (spec.wreck, spec.wreck))
     if spec.proj:
         L.append("c=$(printf %s \"$c\" | tr 1 0)")
     if spec.out == "file":
